@@ -9,7 +9,7 @@
     Not proved (partial): completeness of the list for canonical LR(1); the check decides it per run
     with an independent Earley oracle. *)
 From Coq Require Import List ZArith Lia.
-From LV Require Import LR.Driver LR.Validator LR.ErrorPos LR.Completeness LR.Main.
+From LV Require Import LR.Driver LR.Validator LR.ErrorPos LR.Completeness LR.Main LR.NoPanic LR.Termination LR.TerminationRec LR.ExpectedExact.
 Import ListNotations.
 
 Theorem C05_expected_nodup_no_error_terminal : forall A orc fuel w s,
@@ -58,3 +58,19 @@ Proof.
   - intros loc exp H. exact (expected_at_eof_are_viable A C Hv Hn orc fuel w loc exp s Hp Hw H).
 Qed.
 Print Assumptions C05_expected_terminals_are_viable_continuations.
+
+(** completeness, for the automaton: [Shiftable A (Some x) l] (LR/TerminationRec.v) says that from the
+    state vector l the reductions triggered by the lookahead x end in a shift of x.  On validated
+    tables the list reported with an UnrecognizedToken / UnrecognizedEof error is EXACTLY the set of
+    terminals x for which this holds in the configuration where the error is reported: nothing the
+    parser would accept next is missing, nothing else is listed.  (For a canonical LR(1) automaton that
+    set is the set of valid continuations; for merged-state automata it is what the automaton can
+    still accept after the reductions it has already made.) *)
+Theorem C05_expected_list_is_exactly_what_the_parser_would_shift : forall A C,
+  shape A C = true -> exact A C = true -> uses_recovery A = false ->
+  forall orc fuel w r s exp,
+  Forall (fun k => match tk_idx k with Some t => t < tn_names A | None => True end) w ->
+  drive A orc fuel (map IOk w) = (r, s) -> is_unrec r exp ->
+  forall x, x < tn_names A -> (In x exp <-> Shiftable A (Some x) (states_of (stk s))).
+Proof. exact expected_list_is_exact. Qed.
+Print Assumptions C05_expected_list_is_exactly_what_the_parser_would_shift.
